@@ -81,16 +81,16 @@ public:
 // ---------------------------------------------------------------- a copy-only element whose assignment can throw
 struct AssignCtl { long countdown = -1; bool fired = false; };
 inline AssignCtl& ac() { static AssignCtl a; return a; }
-struct ElemCA {
+struct ElemTA {
 	uint32_t id; uint32_t state;
-	explicit ElemCA(uint32_t i = 0) : id(i), state(0xA11CE) { ++ec().live; ++ec().constructed; }
-	ElemCA(const ElemCA& o) : id((copyPoint(), o.id)), state(0xA11CE) { ++ec().live; ++ec().constructed; ++ec().copies; }
-	ElemCA& operator=(const ElemCA& o) {
+	explicit ElemTA(uint32_t i = 0) : id(i), state(0xA11CE) { ++ec().live; ++ec().constructed; }
+	ElemTA(const ElemTA& o) : id((copyPoint(), o.id)), state(0xA11CE) { ++ec().live; ++ec().constructed; ++ec().copies; }
+	ElemTA& operator=(const ElemTA& o) {
 		if (ac().countdown == 0) { ac().countdown = -1; ac().fired = true; throw std::runtime_error("assign"); }
 		if (ac().countdown > 0) --ac().countdown;
 		id = o.id; state = 0xA11CE; return *this;
 	}
-	~ElemCA() { state = 0xDEAD; --ec().live; ++ec().destroyed; }
+	~ElemTA() { state = 0xDEAD; --ec().live; ++ec().destroyed; }
 };
 
 struct EqCtl { long countdown = -1; bool fired = false; };
@@ -119,7 +119,7 @@ static uint64_t mixh(uint64_t h, uint64_t x) { return h * 1000003ull + x + 1; }
 template<typename T> struct IsCounted : std::false_type {};
 template<> struct IsCounted<ElemNM> : std::true_type {};
 template<> struct IsCounted<ElemCO> : std::true_type {};
-template<> struct IsCounted<ElemCA> : std::true_type {};
+template<> struct IsCounted<ElemTA> : std::true_type {};
 
 // ---------------------------------------------------------------- adapters (temporaries are made by the caller, outside the measured operation)
 template<typename Key, typename Traits>
@@ -214,6 +214,19 @@ static size_t fullFromByPools()
 	return Bucket::maxCount;
 }
 
+// LimP4: every non-empty bucket owns exactly one block of one of the four memory pools of BucketParams
+template<typename Params, typename = void> struct LiveBlocks { static long get(Params&) { return -1; } };
+template<typename Params> struct LiveBlocks<Params, std::void_t<decltype(std::declval<Params&>().template GetMemPool<4>())>> {
+	static long get(Params& p) {
+		return (long)(p.template GetMemPool<1>().GetAllocateCount() + p.template GetMemPool<2>().GetAllocateCount()
+			+ p.template GetMemPool<3>().GetAllocateCount() + p.template GetMemPool<4>().GetAllocateCount());
+	}
+};
+template<typename HS> static long poolBlocks(HS& s) {
+	if (s.mBuckets == nullptr) return 0;
+	return LiveBlocks<typename HS::BucketParams>::get(s.mBuckets->GetBucketParams());
+}
+
 template<typename Crew> static auto crewPtrOf(Crew& c, int) -> decltype((void*)c.mData) { return (void*)c.mData; }
 template<typename Crew> static void* crewPtrOf(Crew&, long) { return nullptr; }
 
@@ -261,9 +274,10 @@ static void runConfig(Ctx& c, Rng& rng, const Cfg& cfg, unsigned fam, unsigned k
 	size_t csz = 0;
 	{ size_t before = lm().live.size(); uint64_t ser = lm().serial; Ad probe; if (lm().live.size() == before + 1) for (auto& kv : lm().live) if (kv.second.serial > ser) csz = kv.second.size; }
 	std::string suiteName = fmt("%s%u_%s_%s%s_h%u_r%u", cfg.kind, cfg.n, cfg.elem, cfg.isMap ? "map" : "set", cfg.fast ? "" : "_slow", fam, runNo);
-	Suite s(c, suiteName, fmt("model htledger kind=%s n=%u isz=%zu ial=%zu part=%d fast=%d reloc=%d fullFrom=%zu logstart=%u hash=%u cat=%s assign=%d hdr=%zu bsz=%zu psz=%zu csz=%zu chained=%d counted=%d",
+	const bool hasPb = std::strcmp(cfg.kind, "LimP4") == 0;
+	Suite s(c, suiteName, fmt("model htledger kind=%s n=%u isz=%zu ial=%zu part=%d fast=%d reloc=%d fullFrom=%zu logstart=%u hash=%u cat=%s assign=%d hdr=%zu bsz=%zu psz=%zu csz=%zu chained=%d counted=%d pb=%d",
 		cfg.kind, cfg.n, sizeof(typename HS::Item), (size_t)HS::ItemTraits::alignment, cfg.fast ? 0 : 1, cfg.fast ? 1 : 0,
-		relocatable ? 1 : 0, cfg.fullFrom, cfg.logStart, fam, cfg.cat, assignable ? 1 : 0, hdr, bsz, psz, csz, cfg.chained ? 1 : 0, counted ? 1 : 0));
+		relocatable ? 1 : 0, cfg.fullFrom, cfg.logStart, fam, cfg.cat, assignable ? 1 : 0, hdr, bsz, psz, csz, cfg.chained ? 1 : 0, counted ? 1 : 0, hasPb ? 1 : 0));
 	if (HS::areItemsNothrowRelocatable != (cfg.fast && relocatable && HS::Bucket::isNothrowAddableIfNothrowCreatable))
 		c.fail("harness: areItemsNothrowRelocatable mismatch in %s", suiteName.c_str());
 	if (cfg.chained == HS::Bucket::isNothrowAddableIfNothrowCreatable)
@@ -311,7 +325,9 @@ static void runConfig(Ctx& c, Rng& rng, const Cfg& cfg, unsigned fam, unsigned k
 			if (opDc < 0) freeze();
 			long dc = opDc, dd = opDd;
 			std::string cnt = counted ? fmt("el=%ld dc=%s dd=%s", ec().live, cfg.chained ? "~" : fmt("%ld", dc).c_str(), cfg.chained ? "~" : fmt("%ld", dd).c_str()) : std::string("el=~ dc=~ dd=~");
-			return " | A " + summary(A) + " | B " + summary(B) + fmt(" | led k=%zu kb=%zu x=%zu xb=%zu ", v.known, v.knownBytes, v.extra, v.extraBytes) + cnt;
+			// LimP4: live memory-pool blocks (MemPool::GetAllocateCount of the four pools of both containers) = non-empty buckets
+			std::string pb = hasPb ? fmt(" pb=%ld", poolBlocks(A.hs()) + poolBlocks(B.hs())) : std::string(" pb=~");
+			return " | A " + summary(A) + " | B " + summary(B) + fmt(" | led k=%zu kb=%zu x=%zu xb=%zu ", v.known, v.knownBytes, v.extra, v.extraBytes) + cnt + pb;
 		};
 		auto ledgerSnapshot = [&]() { return std::make_pair(lm().live.size(), (long)ec().live); };
 		auto fullCheck = [&](const char* when) {
@@ -693,17 +709,17 @@ int main(int argc, char** argv)
 	KIND(momo::HashBucketOpen2N2<3>, ElemNM, true, false, 2, "Open2N2", 3, "nm", "nmove", false, nullptr);
 	KIND(momo::HashBucketOpen2N2<3>, ElemNM, false, true, 2, "Open2N2", 3, "nm", "nmove", false, nullptr);
 	KIND(momo::HashBucketOpen2N2<2>, ElemCO, true, false, 2, "Open2N2", 2, "co", "copy", false, nullptr);
-	KIND(momo::HashBucketOpen2N2<3>, ElemCA, false, false, 2, "Open2N2", 3, "ca", "copy", false, nullptr);
+	KIND(momo::HashBucketOpen2N2<3>, ElemTA, false, false, 2, "Open2N2", 3, "ca", "copy", false, nullptr);
 #elif VF_PART == 1
 	typedef momo::HashBucketOpenN1<3, true> ON3; typedef momo::HashBucketOpenN1<7, false> ON7;
 	KIND(ON3, E16, true, true, 2, "OpenN1", 3, "e16", "triv", false, nullptr);
 	KIND(ON7, ElemNM, true, false, 1, "OpenN1", 7, "nm", "nmove", false, nullptr);
-	KIND(ON3, ElemCA, true, false, 1, "OpenN1", 3, "ca", "copy", false, nullptr);
+	KIND(ON3, ElemTA, true, false, 1, "OpenN1", 3, "ca", "copy", false, nullptr);
 	KIND(momo::HashBucketOpen8, ElemNM, true, false, 2, "Open8", 7, "nm", "nmove", false, nullptr);
 	KIND(ON3, ElemNM, false, true, 2, "OpenN1", 3, "nm", "nmove", false, nullptr);
 	KIND(momo::HashBucketOpen8, ElemCO, true, true, 1, "Open8", 7, "co", "copy", false, nullptr);
 	KIND(momo::HashBucketOne<>, ElemNM, true, false, 3, "One", 1, "nm", "nmove", false, nullptr);
-	KIND(momo::HashBucketOne<>, ElemCA, false, true, 3, "One", 1, "ca", "copy", false, nullptr);
+	KIND(momo::HashBucketOne<>, ElemTA, false, true, 3, "One", 1, "ca", "copy", false, nullptr);
 #else
 	// chained kinds: the items live in memory-pool blocks; pool buffers are the manager blocks of unknown purpose
 	KIND(momo::HashBucketLimP4<4>, ElemNM, true, false, 2, "LimP4", 4, "nm", "nmove", true, nullptr);
